@@ -27,20 +27,22 @@ THEOREMS = [f'Gnpy.Edfa.{t}' for t in (
     'gain_profile_flat', 'nf_no_pad', 'call_spec',
     'out_of_band_dropped', 'in_band_kept', 'demux_sublist', 'call_none_iff_no_channel_in_band',
     'gain_profile_normalised_partial', 'callSeq_unsaturated', 'callSeq_persists', 'nf_stage_at_gmax_gmin',
-    'nf_openroadm', 'nf_openroadm_preamp', 'multiCall_none_iff', 'multiCall_per_band', 'coil_pos_of_spread')]
+    'nf_openroadm', 'nf_openroadm_preamp', 'multiCall_none_iff', 'multiCall_per_band', 'coil_pos_of_spread',
+    'nf_stage_antitone', 'interp_const')]
 PARTIAL = ['gain_profile_normalised_partial: under tilt or gain ripple the secant step of Edfa._gain_profile only '
            'approximates the target average gain; proved: the profile is g1st - voa + dgt*x for one scalar x (so its '
            'shape is exactly ripple + x\'*dgt) and the flat case is exact; the residual of the average gain is '
            'bounded by the monitor (0.02 dB), not by a theorem']
-RULE = ('cases from one PRNG: (a) 66% amplifier crossings (+6% Multiband_amplifier crossings of the shipped multiband '
-        'library with a spectrum over both bands): an amplifier of a shipped library or of a generated '
+RULE = ('cases from one PRNG: (a) 66% amplifier crossings: an amplifier of a shipped library or of a generated '
         'library (variable/fixed gain, advanced polynomial with ripple, OpenROADM ila/preamp/booster, dual stage, '
-        'custom bands), gain -5..40 dB, tilt in {0,+-1,+-2,random}, in/out VOA, 1-3 consecutive calls with spectra of '
-        '1-120 channels (one or two combs, mixed slot/baud, channels outside or straddling the amplifier band, prior '
-        'noise share), total input -40..+25 dBm biased towards the saturation point; (b) 12% NF shape of min/max-NF '
-        'amplifiers at gmax, gmin, below gmin and sorted random gains; (c) 10% estimate_nf_model incl. rejected '
-        'inputs; (d) 6% library entries with missing/extra keys. Non-trivial: (a) at least one channel kept and '
-        '(>= 2 channels or saturated), (b)-(d) always; distinct = distinct canonical JSON')
+        'custom bands/default configs), gain -5..40 dB, tilt in {0,+-1,+-2,random}, in/out VOA, 1-3 consecutive calls '
+        'of the same object with spectra of 1-120 channels (one or two combs, mixed slot/baud, channels outside or '
+        'straddling the amplifier band, prior noise share), total input -40..+25 dBm biased towards the saturation '
+        'point; (a\') 6% Multiband_amplifier crossings (shipped multiband library, spectrum over both bands); (b) 12% NF '
+        'shape of min/max-NF amplifiers at gmax, gmin, below gmin and sorted random gains; (c) 10% estimate_nf_model '
+        'incl. rejected inputs (both branches, recomputed delta_p); (d) 6% library entries with missing/extra keys, '
+        'each loaded entry then used in a crossing. Non-trivial: (a) at least one channel kept and (>= 2 channels or '
+        'saturated), (a\') >= 2 channels kept, (b)-(d) always; distinct = distinct canonical JSON')
 MODEL_SCOPE = ('modelled: Edfa.__call__/propagate/interpol_params (band filter, in_voa, total input power, clamp on the '
                'effective_gain attribute incl. its persistence across calls, slot_width rule), _calc_nf/_nf for all '
                'type_defs incl. dual_stage, noise_profile, _gain_profile (flat and tilted/ripple branches, polyfit as '
